@@ -6,7 +6,16 @@ step the produced array and numpy's global state are hashed; the equality patter
 equality pattern of the provenances the model attached to the steps, and the global state may change only on the
 steps the model marks as global."""
 import hashlib
+import json
+import os
+import shutil
+import subprocess
+import sys
+import tempfile
 import warnings
+from pathlib import Path
+
+sys.path.insert(0, str(Path(__file__).resolve().parent.parent.parent))
 
 import numpy as np
 
@@ -14,6 +23,7 @@ from harness import core
 
 PA = dict(r0=0.15, N=4, delta=0.1, L0=20.0, l0=0.01)
 PB = dict(r0=0.2, N=6, delta=0.05, L0=10.0, l0=0.005)
+PA2 = dict(PA, r0=PA["r0"] * (1 + 4e-6))          # almost, but not, the parameters of A
 
 
 def _h(a):
@@ -41,13 +51,17 @@ class World:
     def step(self, rec):
         a = rec["a"]
         if a in ("ft", "ftsh"):
-            P = PA if rec["p"] == "A" else PB
+            P = {"A": PA, "B": PB, "A2": PA2}[rec["p"]]
             f = self.ps.ft_phase_screen if a == "ft" else self.ps.ft_sh_phase_screen
             return np.asarray(f(P["r0"], P["N"], P["delta"], P["L0"], P["l0"], seed=self.seed_arg(rec["seed"])))
         if a == "new":
             o = rec["o"]
             if o == "o3":
                 self.objs[o] = self.ips.PhaseScreenKolmogorov(5, 0.5, 0.2, 20.0, random_seed=2, stencil_length_factor=2)
+            elif o == "o4":
+                self.objs[o] = self.ips.PhaseScreenVonKarman(4, 0.5, 0.1, 20.0, random_seed=1)
+            elif o == "o5":
+                self.objs[o] = self.ips.PhaseScreenVonKarman(6, 0.5, 0.2, 20.0, random_seed=3)
             else:
                 self.objs[o] = self.ips.PhaseScreenVonKarman(4, 0.5, 0.2, 20.0, random_seed=1)
             return np.array(self.objs[o].scrn, copy=True)
@@ -93,7 +107,57 @@ class World:
 NOTES = []
 
 
-def run_behaviour(ao, hist):
+def request_key(rec):
+    if rec["a"] in ("ft", "ftsh") and rec["seed"] >= 0:
+        return "%s|%s|%d" % (rec["a"], rec["p"], rec["seed"])
+    if rec["a"] == "new":
+        return "new|%s" % ("o1" if rec["o"] == "o2" else rec["o"])
+    if rec["a"] == "add_row":
+        return "add_row|%s|%d" % ("o1" if rec["o"] == "o2" else rec["o"], rec["rows"])
+    return None
+
+
+def pristine_worker(req, out_path):
+    """fresh interpreter, nothing else executed: the request alone (for instances: creation and ten rows)"""
+    ao = core.import_aotools()
+    w = World(ao)
+    out = {}
+    parts = req.split("|")
+    if parts[0] in ("ft", "ftsh"):
+        rec = dict(a=parts[0], p=parts[1], seed=int(parts[2]))
+        out[req] = _h(w.step(rec))
+    else:
+        o = parts[1]
+        out["new|%s" % o] = _h(w.step(dict(a="new", o=o)))
+        for k in range(1, 11):
+            out["add_row|%s|%d" % (o, k)] = _h(w.step(dict(a="add_row", o=o)))
+    with open(out_path, "w") as fh:
+        json.dump(out, fh)
+
+
+def pristine_references():
+    """hash of every seeded request when it is the ONLY thing a fresh interpreter does"""
+    reqs = ["%s|%s|%d" % (a, p, s) for a in ("ft", "ftsh") for p in ("A", "B", "A2") for s in (0, 1, 2)] + \
+           ["new|%s" % o for o in ("o1", "o3", "o4", "o5")]
+    tmp = tempfile.mkdtemp(prefix="aoverif-c06-")
+    procs = []
+    try:
+        for i, rq in enumerate(reqs):
+            outp = os.path.join(tmp, "r%d.json" % i)
+            procs.append((outp, subprocess.Popen([sys.executable, "-B", os.path.abspath(__file__), "--pristine", rq, outp],
+                                                 stdout=subprocess.PIPE, stderr=subprocess.STDOUT, text=True)))
+        ref = {}
+        for outp, p in procs:
+            o, _ = p.communicate(timeout=600)
+            if p.returncode != 0:
+                raise core.MachineryError("pristine worker failed: %s" % o[-600:])
+            ref.update(json.load(open(outp)))
+    finally:
+        shutil.rmtree(tmp, ignore_errors=True)
+    return ref
+
+
+def run_behaviour(ao, hist, ref=None):
     """returns list of (key, detail)"""
     w = World(ao)
     outs = []
@@ -119,8 +183,12 @@ def run_behaviour(ao, hist):
         if out is not None:
             if not np.all(np.isfinite(out)):
                 return [("rng:non-finite-output", dict(step=i, record=rec))]
-            cls = (rec["a"], rec.get("p"), "o3" if rec.get("o") == "o3" else ("twin" if rec.get("o") else None))
+            cls = (rec["a"], rec.get("p"), rec["o"] if rec.get("o") in ("o3", "o4", "o5") else ("twin" if rec.get("o") else None))
             outs.append((i, cls, _h(out), rec))
+            # ... and bit-identical to the same request made alone in a fresh interpreter (nothing interleaved at all)
+            rk = request_key(rec)
+            if ref is not None and rk in ref and ref[rk] != outs[-1][2]:
+                return [("rng:differs-from-pristine-process:%s" % rec["a"], dict(step=i, record=rec, history=[h["a"] + ":" + str(h.get("o", h.get("p", ""))) for h in hist[:i]]))]
     for x in range(len(outs)):
         for y in range(x + 1, len(outs)):
             i, ci, hi, ri = outs[x]
@@ -159,12 +227,14 @@ def run(run):
     warnings.simplefilter("ignore")
     saved = np.random.get_state()
     acts = {}
+    ref = pristine_references()
+    run.aux["pristine_reference_requests"] = len(ref)
     try:
         for hist in behaviours:
             for rec in hist:
                 acts[rec["a"]] = acts.get(rec["a"], 0) + 1
             with np.errstate(all="ignore"):
-                bad = run_behaviour(ao, hist)
+                bad = run_behaviour(ao, hist, ref)
             run.traces += 1
             for key, detail in bad:
                 run.violation(key, detail, dict(kind="behaviour", hist=hist))
@@ -189,7 +259,13 @@ def replay(run, case):
     saved = np.random.get_state()
     try:
         with np.errstate(all="ignore"):
-            for key, detail in run_behaviour(ao, case["hist"]):
+            for key, detail in run_behaviour(ao, case["hist"], pristine_references()):
                 run.violation(key, detail, case)
     finally:
         np.random.set_state(saved)
+
+
+if __name__ == "__main__":
+    if len(sys.argv) == 4 and sys.argv[1] == "--pristine":
+        warnings.simplefilter("ignore")
+        pristine_worker(sys.argv[2], sys.argv[3])
